@@ -416,11 +416,60 @@ def w_levels(prog, ctx):
             ctx.fail("W5", f, cn, cn, "%s does not build ReadWeightCounter(strategy) with the %s extractor" % (cn, lv))
 
 
+def w6(prog, ctx):
+    """The number on the __not_aligned line of an experiment's tables is that experiment's own."""
+    from . import c10 as _c10
+    DSP = "src/dataset_processor.py"
+    n = 0
+    for m, q, f in prog.all_functions():
+        if m.rel != DSP:
+            continue
+        env = {a.targets[0].id: a.value for a in walk_no_nested(f) if isinstance(a, ast.Assign) and len(a.targets) == 1
+               and isinstance(a.targets[0], ast.Name)}
+        for c in walk_no_nested(f):
+            if not (isinstance(c, ast.Call) and (call_name(c) or "").split(".")[-1] == "merge_counts"):
+                continue
+            callee = prog.try_func("src/file_utils.py", "merge_counts")
+            if callee is None:
+                raise AnalysisError("merge_counts not found")
+            params = [a.arg for a in callee.args.args]
+            if "unaligned_reads" not in params:
+                raise AnalysisError("merge_counts has no unaligned_reads parameter")
+            k = params.index("unaligned_reads")
+            arg = c.args[k] if k < len(c.args) else next((kw.value for kw in c.keywords if kw.arg == "unaligned_reads"), None)
+            if arg is None:
+                continue                      # the default (0) - nothing is reported
+            n += 1
+            if isinstance(arg, ast.Name) and arg.id in env:
+                arg = env[arg.id]
+            d = None
+            for x in ast.walk(arg):
+                dd = dotted(x) if isinstance(x, ast.Attribute) else None
+                if dd and dd.startswith("self.") and (d is None or len(dd) < len(d)):
+                    d = dd
+            loc = ".".join((d or "").split(".")[:2])
+            if not loc:
+                ctx.fail("W6", c, q, src(c)[:90], "the unaligned-read number given to merge_counts is not read from the experiment's alignment statistics")
+                continue
+            state, node = _c10.driver_location_state(prog, loc)
+            if state == "fresh":
+                ctx.ok("W6", "%s:%d" % (DSP, c.lineno), "%s: __not_aligned comes from %s, freshly created for every experiment (%s)" % (q, loc, src(node)[:60]))
+            else:
+                ctx.fail("W6", node if node is not None else c, q, src(c)[:90],
+                         "the __not_aligned value comes from %s, which is %s in the per-experiment loop: it is %s before an unconditional fresh "
+                         "write of the same iteration, so the second experiment of a run reports the unaligned reads of the first one as well"
+                         % (loc, state, "used" if state == "carried" else "never rewritten"))
+    ctx.floor("W6", "merge_counts calls that report unaligned reads", n, 2)
+
+
 def run(prog, ctx):
     ctx.rule("W5", "every create_gene_counter / create_transcript_counter call passes args.gene_quantification / "
                    "args.transcript_quantification respectively and an output path of the same level; the factories pass the strategy "
                    "to ReadWeightCounter and use their own level's extractor")
     w_levels(prog, ctx)
+    ctx.rule("W6", "the unaligned-read number passed to merge_counts (the __not_aligned line) is read from a DatasetProcessor location that "
+                   "is written unconditionally, before any use, in every iteration of the per-experiment loop (self-calls inlined)")
+    w6(prog, ctx)
     ctx.rule("W4", "the accumulator cell type of AssignedFeatureCounter.feature_counter resolves to float (weights 1/k are fractional)")
     ctx.rule("W1", "path enumeration of ReadWeightCounter.process_* with a one-variable interval domain for the feature count: every "
                    "return is 0, 1 or 1/k; 1 only if k <= 1; 1/k only with the documented strategy flags positive on the path; the "
